@@ -77,6 +77,7 @@ type HarnessResult struct {
 	Transitions   int64
 	Prints        []string
 	CrossChecked  int
+	ChoiceStats   map[string]int
 	CrossDisagree int
 }
 
@@ -367,6 +368,15 @@ func (p *Path) decide(cond *Term) bool {
 	panic(pathEnd{"infeasible"})
 }
 
+func (p *Path) chooseNCat(n int, cat string) int {
+	if n > 1 && p.pos >= len(p.prefix) {
+		p.e.mu.Lock()
+		p.e.res.ChoiceStats[cat] += n - 1
+		p.e.mu.Unlock()
+	}
+	return p.chooseN(n)
+}
+
 // chooseN is a pure nondeterministic choice among n alternatives (scheduler, map order).
 func (p *Path) chooseN(n int) int {
 	if n <= 1 {
@@ -579,7 +589,7 @@ func (e *Engine) RunHarness(cfg HarnessCfg, workers int) *HarnessResult {
 		cfg.WallS = 600
 	}
 	e.cfg = cfg
-	res := &HarnessResult{Cfg: cfg, Reach: map[string]int{}, InconclReason: map[string]int{}, Funcs: map[string]int{}, Intrinsics: map[string]int{}, distinctPC: map[string]bool{}}
+	res := &HarnessResult{Cfg: cfg, Reach: map[string]int{}, InconclReason: map[string]int{}, Funcs: map[string]int{}, Intrinsics: map[string]int{}, distinctPC: map[string]bool{}, ChoiceStats: map[string]int{}}
 	e.res = res
 	e.work = []workItem{{}}
 	if e.replay != nil {
